@@ -24,6 +24,9 @@ def channel_cases(ctx, models, kind="popen"):
         gw = matrix.make_gateway(execnet.default_group, kind, "thread", tag="c01" + kind)
     cases = []
     try:
+        # an unrelated channel of this gateway is reconfigured first: the coercion of one channel is nobody else's business
+        other = gw.newchannel()
+        other.reconfigure(py2str_as_py3str=False, py3str_as_py2str=True)
         ch = gw.remote_exec("for item in channel: channel.send(item)")
         for i, m in enumerate(models):
             obj = pyval.from_model(m)
